@@ -166,6 +166,8 @@ class World:
             it.methods["into"] = lambda i, r, a: r
             # any other predicate of Ty applied to a concrete type is run from its own source
             it.method_resolver = self.ty_method
+            # free helper functions of ty.rs (a relation split into a helper) are run from their own source too
+            it.resolver = self.free_fn
             names = f.param_names()
             env = {"self": recv}
             for n, a in zip(names[1:], args):
@@ -173,6 +175,14 @@ class World:
             return it.run_fn(f, env)
         finally:
             self.depth -= 1
+
+    def free_fn(self, path):
+        last = path.rsplit("::", 1)[-1]
+        key = "fn:" + last
+        if key not in self._others:
+            c = [f for f in self._syn.fns_in(TY) if f.body is not None and not f.in_test and f.impl_ty is None and f.qual.rsplit("::", 1)[-1] == last]
+            self._others[key] = c[0] if len(c) == 1 else None
+        return self._others[key]
 
     def ty_method(self, recv, m):
         if not (isinstance(recv, Variant) and recv.path.startswith("Ty::")) or m in self.fns or m in ("clone", "into", "as_ref", "absolute_ty"):
@@ -571,10 +581,87 @@ def noeval_law(ctx, run, clauses=("wrapped", "rejected")):
                 run.ok(f.site(), "%s = X (%d predicate cases)" % (where.split(" [")[0], len(outcomes)))
 
 
+def r12e(ctx, run):
+    """the type of a `switch` is the common type of its arms, whatever their order: the step that folds one more arm type into the running type
+    (`match first_arm_ty { .. }` in infer_expr's Switch arm, once for the regular arms and once for the default arm) is evaluated from source on pairs of
+    arm types in both orders.  Both orders must end in the same type, and that type is Ty::max of the pair (evaluated from ty.rs) - or, when max has no
+    answer, both orders report the mismatch."""
+    import c07
+    from symint import Env
+    from absint import Obj, Term, Variant, Panic, CannotEstablish, _Return
+    V = Variant
+    fn = ctx.syn.fn("GlobalInferenceCtx::infer_expr", "hir_ty/src/globals.rs")
+    folds = [m for m in synq.matches_on(fn.body) if canon(m["e"]) == "first_arm_ty" and any("SwitchMismatch" in canon(a["b"]) for a in m["arms"])]
+    if len(folds) < 2:
+        raise LookupError("fold steps `match first_arm_ty` with a SwitchMismatch report in infer_expr: %d" % len(folds))
+    QI = c07.make_ty_interp(ctx)
+    w = World(ctx)
+    i32, i64, u8 = V("Ty::IInt", {"0": 32}), V("Ty::IInt", {"0": 64}), V("Ty::UInt", {"0": 8})
+    weak_u = V("Ty::UInt", {"0": 0})
+    P = lambda m_, t: V("Ty::Pointer", {"mutable": m_, "sub_ty": t})
+    pairs = [("{uint} and u8", weak_u, u8), ("{uint} and i64", weak_u, i64), ("i32 and i64", i32, i64), ("u8 and i32", u8, i32),
+             ("[]i32 and [3]i32", V("Ty::Slice", {"sub_ty": i32}), V("Ty::ConcreteArray", {"size": 3, "sub_ty": i32, "uid": 1})), ("^i32 and ^mut i32", P(False, i32), P(True, i32)),
+             ("rawptr and ^i32", V("Ty::RawPtr", {"mutable": False}), P(False, i32)), ("any and i32", V("Ty::Any"), i32), ("bool and i32", V("Ty::Bool"), i32)]
+
+    def fold(m, first, found):
+        reported = []
+
+        class RI(QI):
+            def default_method(self, recv, m_, args, e):
+                if isinstance(recv, Obj) and recv.name == "self" and m_ == "replace_weak_tys":
+                    return True
+                if m_ == "push" and isinstance(recv, Term) and recv.op == "diagnostics":
+                    reported.append(1)
+                    return None
+                if m_ in ("range_for_expr", "file"):
+                    return Term(m_)
+                return super().default_method(recv, m_, args, e)
+
+            def eval(self, e, env):
+                if e.get("k") == "field" and canon(e) == "self.diagnostics":
+                    return Term("diagnostics")
+                if e.get("k") == "struct" and e["p"].endswith("TyDiagnostic"):
+                    return Obj("TyDiagnostic")
+                return super().eval(e, env)
+        it = RI()
+        it.funcs["Some"] = lambda i, a: a[0]
+        env = Env(None, {"self": Obj("self", loc=Term("loc"), bodies=Term("bodies")), "first_arm_ty": first, "found_arm_ty": found, "default_ty": found,
+                         "arm": Obj("arm", body=Term("body")), "default": Obj("default", body=Term("body"))})
+        try:
+            it.eval(m, env)
+        except _Return:
+            pass
+        return env["first_arm_ty"], bool(reported)
+    n = 0
+    for m in folds:
+        for desc, a, b in pairs:
+            key = "switch-fold:%d:%s" % (folds.index(m), desc)
+            try:
+                r1, rep1 = fold(m, a, b)
+                r2, rep2 = fold(m, b, a)
+                mx = w.call("max", a, [b], top=True)
+            except (Panic, CannotEstablish) as c:
+                run.finding(fn.qual, key, fn.file, m["ln"], "cannot establish the type of a switch whose arms have the types %s: %s" % (desc, getattr(c, "what", c)))
+                continue
+            n += 1
+            none = is_none(mx)
+            if none:
+                good = rep1 and rep2
+                why = "Ty::max has no common type for the pair, so both orders must report the mismatch; reported: %s / %s" % (rep1, rep2)
+            else:
+                good = r1 == mx and r2 == mx and not rep1 and not rep2
+                why = "the common type is %s; the two orders give %s and %s" % (tyname(mx), tyname(r1) if isinstance(r1, Variant) else r1, tyname(r2) if isinstance(r2, Variant) else r2)
+            run.check(good, fn.site(m["ln"]), "arms of types %s: same result in both orders (%s)" % (desc, "mismatch reported" if none else tyname(mx)), fn.qual, key, fn.file, m["ln"],
+                      "a switch whose arms have the types %s depends on the order of its arms: %s" % (desc, why))
+    if n < 12:
+        raise LookupError("switch fold evaluations: %d" % n)
+
+
 def rules(ctx):
     return [
         Rule("R12.a", "reflexivity for every type: can_fit_into(T, T) and max(T, T) on a symbolic type", 17, r12a),
         Rule("R12.b", "fits => casts for every pair: can_cast_to consults can_fit_into first, on the same pair", 2, r12b),
         Rule("R12.c", "weak specialisation => implicit acceptance: complete scalar table + one induction step per constructor arm", 50, r12c),
+        Rule("R12.e", "the type of a switch is the common type of its arms in every order: the arm-folding step of infer_expr evaluated on type pairs, both orders, against Ty::max", 12, r12e),
         Rule("R12.d", "common type: order-independent and accepts both operands on the complete scalar table; constructor arms symmetric", 100, r12d),
     ]
